@@ -180,6 +180,17 @@ namespace OpenMEEG {
             return end();
         }
 
+        // A file name or format name is never taken from the next option: "-o -of ascii" leaves -o without value.
+
+        std::string parse_value(char* arg[],const std::string& defaultvalue) const {
+            if (arg==end() || (*arg)[0]=='-')
+                return defaultvalue;
+            std::istringstream iss(*arg);
+            std::string value = defaultvalue;
+            iss >> value;
+            return value;
+        }
+
         template <typename T>
         T parse_value(char* arg[],const T defaultvalue) const {
             if (arg==end())
